@@ -15,6 +15,8 @@ var regionEntries = map[string][]string{
 	"ACCEPT": {
 		"vm.(*Supervisor).ApplyBlock", "vm.(*Supervisor).ApplyMomentum", "chain/momentum.(*momentumStore).AddAccountBlockTransaction", "common/db.PatchHash",
 	},
+	// parameter decoders that run on the RPC call goroutine before the recovering defer of callback.call
+	"DECODE": {"chain/nom.(*AccountBlock).UnmarshalJSON", "chain/nom.(*Nonce).UnmarshalText", "common/types.(*Address).UnmarshalText", "common/types.(*Hash).UnmarshalText", "common/types.(*ZenonTokenStandard).UnmarshalText", "rpc/server.(*BlockNumber).UnmarshalJSON", "rpc/server.(*BlockNumberOrHash).UnmarshalJSON", "rpc/server.parsePositionalArguments", "rpc/server.(*jsonCodec).readBatch", "rpc/server.parseMessage"},
 	"PRODUCER": {"vm.(*Supervisor).GenerateAutoReceive"},
 	"ELECTION": {
 		"consensus.(*electionManager).*", "consensus.(*electionAlgorithm).*", "consensus.(*consensus).VerifyMomentumProducer", "consensus.(*consensus).GetMomentumProducer",
